@@ -322,7 +322,69 @@ class Parser:
                     final = self.block()
                 return ('try', body, handler, final, line)
             if t.val == 'switch':
-                raise AnalysisError(f'js: switch statement unsupported at line {line}')
+                # switch (e) { case A: …; break; case B: case C: …; break; default: … }  ->  an if / else-if chain on `e === A` …
+                # Only the plain form: every non-empty case ends in break / return / throw (no fall-through into code), `default` comes last.
+                self.i += 1
+                self.eat('(')
+                disc = self.expr()
+                self.eat(')')
+                self.eat('{')
+                groups = []                 # ([labels] | None for default, [statements])
+                labels: list = []
+                is_default = False
+                while not self.at('}'):
+                    if self.opt('case'):
+                        labels.append(self.expr())
+                        self.eat(':')
+                        continue
+                    if self.opt('default'):
+                        self.eat(':')
+                        is_default = True
+                        continue
+                    body = []
+                    while not (self.at('case') or self.at('default') or self.at('}')):
+                        body.append(self.statement())
+                    groups.append((None if is_default else labels, body))
+                    if is_default and labels:
+                        raise AnalysisError(f'js: switch at line {line}: `default` shares its body with a case')
+                    labels, is_default = [], False
+                self.eat('}')
+                if labels or is_default:
+                    groups.append((None if is_default else labels, []))
+
+                def has_break(st, top=True):
+                    if isinstance(st, tuple):
+                        if st[:1] == ('break',):
+                            return True
+                        if st and st[0] in ('for', 'forof', 'forin', 'while', 'func'):
+                            return False
+                        return any(has_break(x, False) for x in st if isinstance(x, (tuple, list)))
+                    if isinstance(st, list):
+                        return any(has_break(x, False) for x in st)
+                    return False
+                chain = None
+                for idx in range(len(groups) - 1, -1, -1):
+                    labs, body = groups[idx]
+                    last = idx == len(groups) - 1
+                    if body and body[-1][:1] == ('break',):
+                        body = body[:-1]
+                    elif body and body[-1][0] in ('return', 'throw'):
+                        pass
+                    elif not last:
+                        raise AnalysisError(f'js: switch at line {line}: a case falls through into the next one')
+                    if any(has_break(x) for x in body):
+                        raise AnalysisError(f'js: switch at line {line}: break inside a nested statement of a case')
+                    if labs is None:
+                        if not last:
+                            raise AnalysisError(f'js: switch at line {line}: `default` is not the last clause')
+                        chain = ('block', body)
+                        continue
+                    test = None
+                    for lab in labs:
+                        c = ('bin', '===', disc, lab)
+                        test = c if test is None else ('bin', '||', test, c)
+                    chain = ('if', test, ('block', body), chain, line)
+                return chain if chain is not None else ('empty',)
         e = self.expr()
         self.opt(';')
         return ('expr', e, line)
